@@ -15,6 +15,7 @@ struct ScaleSpec { std::string name, text, unit, first; bool nested; };
 struct Work { long bytes, reqs, searches, collisions, usets, ucores, triples, gotos; int rc; size_t errs; };
 
 static std::vector<int> g_in; static size_t g_pos;
+static std::vector<int> *g_ansic;
 static int rd(void **a) { *a = NULL; return g_pos < g_in.size() ? g_in[g_pos++] : -1; }
 static size_t g_nerr;
 static void se(int, void *, int, void *, int, void *) { g_nerr++; }
@@ -25,8 +26,11 @@ static Work measure(const ScaleSpec &sp, long n, int la) {
   if (define_by_text(y, sp.text, 1) != 0) machinery_error("scale grammar rejected: " + sp.text);
   vy_set_lookahead_level(y, la); vy_set_one_parse_flag(y, 1); vy_set_debug_level(y, 1);
   g_in.clear();
-  for (char c : sp.first) g_in.push_back((unsigned char) c);
-  while ((long) g_in.size() < n) for (char c : sp.unit) g_in.push_back((unsigned char) c);
+  if (sp.unit.empty()) { while ((long) g_in.size() < n) g_in.insert(g_in.end(), g_ansic->begin(), g_ansic->end()); }
+  else {
+    for (char c : sp.first) g_in.push_back((unsigned char) c);
+    while ((long) g_in.size() < n) for (char c : sp.unit) g_in.push_back((unsigned char) c);
+  }
   g_pos = 0; g_nerr = 0;
   // statistics go to stderr at debug level 1: capture them
   char tmpl[] = "/var/tmp/yaep-scale-XXXXXX"; int fd = mkstemp(tmpl); unlink(tmpl);
@@ -55,6 +59,15 @@ int eng_scale_main(int argc, char **argv) {
     {"arithmetic E/T/F, products and parentheses", "TERM; E : T # 0 | E '+' T # plus (0 2) ; T : F # 0 | T '*' F # mult (0 2) ; F : 'a' # 0 | '(' E ')' # 1 ;", "+a*(a+a)*a", "a", true},
     {"statement list with nesting", "P : P S # l (0 1) | S # 0 ; S : 'x' '=' E ';' # as (0 2) | '{' P '}' # bl (1) | 'i' '(' E ')' S # if (2 4) ; E : E '+' 'x' # p (0 2) | 'x' # 0 ;", "x=x+x;{x=x;}i(x)x=x;", "x=x;", true},
   };
+  // ANSI C grammar of the test suite on test.i, concatenated 1, 2, 4 (8) times (a translation unit is a list of
+  // external declarations, so the concatenation is again a program); files produced at build time from /repo/test
+  std::vector<int> ansic_toks;
+  if (a.has("ansic-desc") && a.has("ansic-toks")) {
+    std::string desc; { FILE *f = fopen(a.get("ansic-desc").c_str(), "r"); if (f) { char b[65536]; size_t k; while ((k = fread(b, 1, sizeof b, f)) > 0) desc.append(b, k); fclose(f); } }
+    { FILE *f = fopen(a.get("ansic-toks").c_str(), "r"); int c; if (f) { while (fscanf(f, "%d", &c) == 1) ansic_toks.push_back(c); fclose(f); } }
+    if (!desc.empty() && ansic_toks.size() > 1000) specs.push_back({"ANSI C on test.i", desc, "", "", true});
+  }
+  g_ansic = &ansic_toks;
   Report rep;
   long idx = 0;
   for (auto &sp : specs) for (int la = 0; la < 3; la++) {
@@ -62,8 +75,8 @@ int eng_scale_main(int argc, char **argv) {
     Report tmp;
     ChildRes cr = run_child([&](Report &r) {
       std::vector<Work> ws;
-      for (int j = 0; j <= jmax; j++) {
-        long n = 1000L << j;
+      for (int j = 0; j <= (sp.unit.empty() ? (jmax >= 9 ? 3 : 2) : jmax); j++) {
+        long n = sp.unit.empty() ? (long) g_ansic->size() << j : 1000L << j;
         Work w = measure(sp, n, la);
         ws.push_back(w);
         r.add("parses"); r.add("tokens", n);
@@ -92,7 +105,7 @@ int eng_scale_main(int argc, char **argv) {
         if (w.searches > 14 * n + 5000) V("work-per-token", std::to_string(w.searches) + " hash table searches for " + std::to_string(n) + " tokens");
         if (w.bytes > 500 * n + 2000000) V("work-per-token", std::to_string(w.bytes) + " bytes requested for " + std::to_string(n) + " tokens");
         if (w.collisions > 2 * w.searches + 5000) V("work-per-token", std::to_string(w.collisions) + " collisions in " + std::to_string(w.searches) + " searches");
-        if (j == jmax) r.sample("{\"grammar\":" + jstr(sp.name) + ",\"lookahead\":" + std::to_string(la) + ",\"tokens\":" + std::to_string(n) + ",\"bytes\":" + std::to_string(w.bytes) + ",\"requests\":" + std::to_string(w.reqs) + ",\"searches\":" + std::to_string(w.searches) + ",\"collisions\":" + std::to_string(w.collisions) + ",\"unique_sets\":" + std::to_string(w.usets) + ",\"goto_successes\":" + std::to_string(w.gotos) + "}");
+        if (j == jmax || (sp.unit.empty() && j == 2)) r.sample("{\"grammar\":" + jstr(sp.name) + ",\"lookahead\":" + std::to_string(la) + ",\"tokens\":" + std::to_string(n) + ",\"bytes\":" + std::to_string(w.bytes) + ",\"requests\":" + std::to_string(w.reqs) + ",\"searches\":" + std::to_string(w.searches) + ",\"collisions\":" + std::to_string(w.collisions) + ",\"unique_sets\":" + std::to_string(w.usets) + ",\"goto_successes\":" + std::to_string(w.gotos) + "}");
         if (a.has("verbose")) printf("%s bytes=%ld reqs=%ld searches=%ld coll=%ld usets=%ld ucores=%ld triples=%ld gotos=%ld\n", cs.c_str(), w.bytes, w.reqs, w.searches, w.collisions, w.usets, w.ucores, w.triples, w.gotos), fflush(stdout);
       }
     }, tmp, 1200);
